@@ -48,11 +48,11 @@ META = {
     "assumptions": ["dt > 0 (quantifier: dt in [1e-4, 1]); F >= 1 frames per call",
                     "chunk_invariant / cov theorems: initial rotation and every increment Exp(w dt) are unit quaternions "
                     "(exact for |w dt| > eps and for w dt = 0; see partial)"],
-    "partial": ["Taylor band 0 < |w dt| <= eps of so3 Exp: the increment is unit only up to O(theta^6) <= eps^6, so the exact-"
-                "arithmetic chunk-invariance of vel/pos (theorem chunk_invariant, hypothesis 'unit increments') does not apply "
-                "verbatim there; rot, cov and Rij are chunk-invariant without that hypothesis (chunk_invariant_rot_cov) and "
-                "par_eq_seq needs no hypothesis; the band is covered by the 192-bit correspondence + the chunk oracle on the "
-                "real code (gyro mode 'taylor')",
+    "partial": ["chunk invariance of vel/pos for NON-unit increments (Taylor band 0 < |w dt| <= eps of so3 Exp): proved exactly up to "
+                "an explicit defect and bounded by (3 eta + 3 eta^2) * sum |dt| |a|, eta = (1+eps^6)^(frames) - 1, for ONE cut "
+                "(chunk_two_every_stream); for several cuts the exact theorem needs unit increments (chunk_invariant) — rot, cov, "
+                "Rij need no hypothesis (chunk_invariant_rot_cov); the band is also covered by the 192-bit correspondence + the "
+                "chunk oracle on the real code (gyro mode 'taylor')",
                 "float round-off: theorems are over the reals; agreement of the float code with the exact model is measured "
                 "at 64*eps*(frames+2)*scale (covariance: 8x that + 16*sqrt(eps) for the cancellation inside so3 Jr)"],
 }
@@ -219,7 +219,9 @@ def build_data(case) -> dict:
         e = {"pos": torch.tensor([[r.gauss(0, 2) for _ in range(3)] for _ in range(B)], dtype=torch.float64).to(dtype),
              "vel": torch.tensor([[r.gauss(0, 2) for _ in range(3)] for _ in range(B)], dtype=torch.float64).to(dtype),
              "rot": torch.tensor([unit_quat(r) for _ in range(B)], dtype=torch.float64).to(dtype)}
-        if "cov" in kind:
+        if "covnone" in kind:
+            e["cov"] = None                       # the key is present with value None
+        elif "cov" in kind:
             Ls = torch.tensor([[r.gauss(0, 1e-2) for _ in range(81)] for _ in range(B)], dtype=torch.float64).reshape(B, 9, 9)
             e["cov"] = (Ls @ Ls.mT).to(dtype)
         if "rij" in kind:
@@ -352,7 +354,7 @@ def call_args(case, D, ci, s, e, rank=None, bufs=None):
         if case["B"] == 1 and case.get("init_flat"):      # documented for one item: plain (3,), (4,) tensors
             st = {"pos": xi["pos"][0].clone(), "vel": xi["vel"][0].clone(), "rot": P.SO3(xi["rot"][0].clone())}
         if "cov" in xi:
-            st["cov"] = xi["cov"].clone()
+            st["cov"] = None if xi["cov"] is None else xi["cov"].clone()
         if "Rij" in xi:
             st["Rij"] = None if xi["Rij"] is None else P.SO3(xi["Rij"][:, None].clone())
         guards += [v for v in st.values() if v is not None]
@@ -605,7 +607,8 @@ def wl(t) -> str:
     return " ".join(to_wire(x) for x in t.double().flatten().tolist())
 
 
-def model_line(case, D, b, mode, left):
+def model_line_resolved(case, D, b, mode, left):
+    """`imu.hist`: arguments already resolved by the harness (used for the specification mode 1)"""
     eps = common.EPS[case["dtype"]]
     nst = D["p0"].shape[0]
     bi = b if nst > 1 else 0
@@ -620,7 +623,7 @@ def model_line(case, D, b, mode, left):
         toks += [str(n), "1" if known else "0", "0" if xi is None else "1"]
         if xi is not None:
             toks += [wl(xi["pos"][b]), wl(xi["rot"][b]), wl(xi["vel"][b])]
-            if "cov" in xi:
+            if xi.get("cov") is not None:
                 toks += ["1", wl(xi["cov"][b])]
             else:
                 toks.append("0")
@@ -638,6 +641,53 @@ def model_line(case, D, b, mode, left):
             fg = s if cc == "b1" else f
             toks.append(wl(D["gcov"][b, fg]) if cc in (True, "g", "b1") else mg)
             toks.append(wl(D["acov"][b, fg]) if cc in (True, "a", "b1") else ma)
+        s += n
+    return " ".join(toks)
+
+
+def model_line(case, D, b, mode, left):
+    """mode 0 (model of the code): `imu.hist2` — the RAW arguments of every call (optional covariances with their shapes,
+    the init_state dict key by key); defaults, broadcasting and dict resolution happen in the Lean model (`forwardArgs`).
+    mode 1 (documented recursions): `imu.hist` with resolved arguments."""
+    if mode != 0:
+        return model_line_resolved(case, D, b, mode, left)
+    eps = common.EPS[case["dtype"]]
+    nst = D["p0"].shape[0]
+    bi = b if nst > 1 else 0
+    toks = ["imu.hist2", to_wire(eps), to_wire(case["gravity"]), "1" if case["reset"] else "0",
+            "1" if case["prop_cov"] else "0", "1" if left else "0", wl(D["p0"][bi]), wl(D["R0"][bi]), wl(D["v0"][bi]),
+            " ".join(to_wire(x) for x in D["mg"]), " ".join(to_wire(x) for x in D["ma"]), str(len(case["chunks"]))]
+    s = 0
+    for ci, n in enumerate(case["chunks"]):
+        known = case["known_rot"][ci]
+        xi = D["xi"][ci]
+        toks += [str(n), "1" if known else "0", "0" if xi is None else "1"]
+        if xi is not None:
+            toks += ["1", wl(xi["pos"][b]), "1", wl(xi["rot"][b]), "1", wl(xi["vel"][b])]
+            if "cov" not in xi:
+                toks.append("0")
+            elif xi["cov"] is None:
+                toks.append("1")
+            else:
+                toks += ["2", wl(xi["cov"][b])]
+            if "Rij" not in xi:
+                toks.append("0")
+            elif xi["Rij"] is None:
+                toks.append("1")
+            else:
+                toks += ["2", wl(xi["Rij"][b])]
+        cc = case["call_cov"][ci]
+        for name, given in (("gcov", cc in (True, "g", "b1")), ("acov", cc in (True, "a", "b1"))):
+            if not given:
+                toks.append("0")
+            elif cc == "b1":
+                toks += ["1", wl(D[name][b, s])]
+            else:
+                toks += ["2"] + [wl(D[name][b, f]) for f in range(s, s + n)]
+        for f in range(s, s + n):
+            toks += [wl(D["dt"][b, f]), wl(D["gyro"][b, f]), wl(D["acc"][b, f])]
+            if known:
+                toks.append(wl(D["rot"][b, f]))
         s += n
     return " ".join(toks)
 
@@ -1498,6 +1548,7 @@ def corner_corpus():
             add([2, 3], B=2, call_cov=[cc, False] if posi else [False, cc], positional=posi, ctor_positional=posi,
                 cov_mode=("gfloat_avec", "gvec_afloat", "gonly", "aonly")[(cc != "g") + 2 * posi],
                 known_rot=[posi], gyro_mode="moderate", acc_mode="unit", gravity=STD_G, itemwise=True)
+    add([2, 2, 1], B=2, explicit_init=["covnone", None, "covnone+rij"], reset=False, gyro_mode="moderate", acc_mode="unit", gravity=STD_G)
     add([2, 2], B=1, explicit_init=["rnone", "basic"], init_flat=True, reset=True, gyro_mode="moderate", acc_mode="unit", gravity=STD_G)
     add([2, 2], B=1, explicit_init=["cov+rij", None], init_flat=True, reset=False, positional=True, gyro_mode="moderate",
         acc_mode="unit", gravity=STD_G)
@@ -1587,7 +1638,7 @@ def gen_cases(ctx: Ctx):
         c["prop_cov"] = True if not c["reset"] else rng.random() < 0.6
         c["known_rot"] = [rng.random() < 0.4 for _ in range(n)]
         c["call_cov"] = [(rng.choice([True, "g", "a", "b1"]) if c["prop_cov"] and rng.random() < 0.35 else False) for _ in range(n)]
-        kinds = [None, None, None, "basic", "cov", "cov+rij", "cov+rnone", "rij", "rnone"]
+        kinds = [None, None, None, "basic", "cov", "cov+rij", "cov+rnone", "rij", "rnone", "covnone", "covnone+rij"]
         c["explicit_init"] = [rng.choice(kinds) for _ in range(n)]
         cases.append(c)
     # --- (11) error paths: a request that raises between successful calls of a carried history
